@@ -1,166 +1,326 @@
 ------------------------------ MODULE GomlSem ------------------------------
-(* Scratch prototype: small-step (CEK) semantics of a goml slice over GAST.   *)
-(* call-by-value, left-to-right, short-circuit, first-match, closures by      *)
-(* value capture, Ref heap.                                                   *)
-EXTENDS Integers, Sequences, FiniteSets, TLC, Json, IOUtils
+(***************************************************************************)
+(* The source-level meaning of goml programs, as a small-step CEK machine  *)
+(* over typed abstract syntax (GAST, produced by lib/gast.py generators):   *)
+(* call-by-value, operands and arguments left to right and exactly once,   *)
+(* short-circuit && and ||, first-match patterns, closures capturing their  *)
+(* environment by value, Ref cells in a shared heap, Vec and array values,  *)
+(* fixed-width integers (IntN), dyadic floats, trait dispatch on the        *)
+(* receiver's type (values carry their types, generic code passes types),   *)
+(* dyn packages, failure = the program stops there with its output kept.    *)
+(*                                                                          *)
+(* This is the denotation C01, C06-C10, C17 and C18 appeal to; it is        *)
+(* independent of the compiler (it never sees inferred types).              *)
+(***************************************************************************)
+EXTENDS Integers, Sequences, FiniteSets, TLC, Json, IOUtils, SemCommon
 
 Progs == ndJsonDeserialize(IOEnv.PROGS)
+MaxSteps == IF "MAXSTEPS" \in DOMAIN IOEnv THEN atoi(IOEnv.MAXSTEPS) ELSE 20000
 
-VARIABLES pid, ctl, kont, heap, nxt, out, status
-vars == <<pid, ctl, kont, heap, nxt, out, status>>
+VARIABLES pid, ctl, kont, heap, nxt, out, status, steps
+vars == <<pid, ctl, kont, heap, nxt, out, status, steps>>
 
-Abs(x) == IF x < 0 THEN -x ELSE x
-TDiv(a, b) == IF (a < 0) # (b < 0) THEN -(Abs(a) \div Abs(b)) ELSE Abs(a) \div Abs(b)
+P == Progs[pid]
+Min(S) == CHOOSE x \in S : \A y \in S : x <= y
 
-VInt(v) == [k |-> "int", v |-> v]
+\* ---------------------------------------------------------------- values
+VInt(t, n) == [k |-> "int", t |-> t, n |-> n]
 VBool(b) == [k |-> "bool", v |-> b]
 VStr(bs) == [k |-> "str", v |-> bs]
 VUnit == [k |-> "unit"]
-
-RECURSIVE Digits(_)
-Digits(n) == IF n < 10 THEN <<48 + n>> ELSE Digits(n \div 10) \o <<48 + (n % 10)>>
-Dec(n) == IF n < 0 THEN <<45>> \o Digits(-n) ELSE Digits(n)
+VFail(why) == [k |-> "fail", why |-> why]      \* run-time failure of the goml program
+IsBad(v) == v.k \in {"bad", "fail"}
 
 EmptyEnv == [n \in {} |-> 0]
 Ext(env, x, v) == (x :> v) @@ env
 
-\* the fixed prelude of the prototype generator, given directly as meaning
-Prelude == {"tick", "tickb", "inc", "dbl", "add3"}
-Builtins == {"string_println", "string_print", "int32_to_string", "bool_to_string", "ref", "ref_get", "ref_set"}
+\* ---------------------------------------------------------------- types at run time
+IntTyNames == IntTypes
+RECURSIVE Subst(_, _)
+Subst(ty, tenv) ==
+  CASE ty.t = "param" -> IF ty.n \in DOMAIN tenv THEN tenv[ty.n] ELSE ty
+    [] ty.t = "tuple" -> [ty EXCEPT !.ts = [i \in DOMAIN ty.ts |-> Subst(ty.ts[i], tenv)]]
+    [] ty.t = "adt" -> [ty EXCEPT !.as = [i \in DOMAIN ty.as |-> Subst(ty.as[i], tenv)]]
+    [] ty.t \in {"vec", "ref"} -> [ty EXCEPT !.e = Subst(ty.e, tenv)]
+    [] ty.t = "array" -> [ty EXCEPT !.e = Subst(ty.e, tenv)]
+    [] ty.t = "fn" -> [ty EXCEPT !.ps = [i \in DOMAIN ty.ps |-> Subst(ty.ps[i], tenv)], !.r = Subst(ty.r, tenv)]
+    [] OTHER -> ty
 
-E(e, env) == [t |-> "e", e |-> e, env |-> env]
-V(v) == [t |-> "v", v |-> v]
+RECURSIVE TyKey(_)
+RECURSIVE JoinKeys(_, _)
+JoinKeys(ts, i) == IF i > Len(ts) THEN "" ELSE (IF i > 1 THEN "," ELSE "") \o TyKey(ts[i]) \o JoinKeys(ts, i + 1)
+TyKey(ty) ==
+  CASE ty.t = "adt" -> IF ty.as = <<>> THEN ty.n ELSE ty.n \o "[" \o JoinKeys(ty.as, 1) \o "]"
+    [] ty.t = "tuple" -> "(" \o JoinKeys(ty.ts, 1) \o ")"
+    [] ty.t = "vec" -> "Vec[" \o TyKey(ty.e) \o "]"
+    [] ty.t = "ref" -> "Ref[" \o TyKey(ty.e) \o "]"
+    [] ty.t = "param" -> "?" \o ty.n
+    [] ty.t \in {"array", "fn", "dyn"} -> "?"
+    [] OTHER -> ty.t
 
-Push(f) == <<f>> \o kont
-Wrap32(v) == v   \* prototype: values stay small
+\* type of a value, as far as trait dispatch needs it
+RECURSIVE TypeOfVal(_)
+TypeOfVal(v) ==
+  CASE v.k = "int" -> [t |-> v.t]
+    [] v.k = "float" -> [t |-> v.t]
+    [] v.k = "bool" -> [t |-> "bool"]
+    [] v.k = "str" -> [t |-> "string"]
+    [] v.k = "unit" -> [t |-> "unit"]
+    [] v.k \in {"struct", "variant"} -> v.ty
+    [] v.k = "tuple" -> [t |-> "tuple", ts |-> [i \in DOMAIN v.es |-> TypeOfVal(v.es[i])]]
+    [] v.k \in {"vec", "ref"} -> v.ty
+    [] OTHER -> [t |-> "?"]
 
-BinOp(op, l, r) ==
-  CASE op = "+" -> IF l.k = "str" THEN VStr(l.v \o r.v) ELSE VInt(l.v + r.v)
-    [] op = "-" -> VInt(l.v - r.v)
-    [] op = "*" -> VInt(l.v * r.v)
-    [] op = "<" -> VBool(l.v < r.v)
-    [] op = ">" -> VBool(l.v > r.v)
-    [] op = "<=" -> VBool(l.v <= r.v)
-    [] op = ">=" -> VBool(l.v >= r.v)
-    [] op = "==" -> VBool(l.v = r.v)
-    [] op = "!=" -> VBool(l.v # r.v)
-
-\* pattern matching: returns [ok, env]
+\* ---------------------------------------------------------------- patterns: [ok, env]
 RECURSIVE Match(_, _, _)
 RECURSIVE MatchAll(_, _, _)
 MatchAll(ps, vs, env) ==
   IF ps = <<>> THEN [ok |-> TRUE, env |-> env]
   ELSE LET r == Match(Head(ps), Head(vs), env) IN IF r.ok THEN MatchAll(Tail(ps), Tail(vs), r.env) ELSE r
+LitNum(p) == NFromDigits(p.neg, p.ds)
 Match(p, v, env) ==
   CASE p.k = "pvar" -> [ok |-> TRUE, env |-> Ext(env, p.x, v)]
     [] p.k = "pwild" -> [ok |-> TRUE, env |-> env]
-    [] p.k = "pint" -> [ok |-> v.v = p.v, env |-> env]
+    [] p.k = "punit" -> [ok |-> TRUE, env |-> env]
+    [] p.k = "pint" -> [ok |-> v.n = LitNum(p), env |-> env]
     [] p.k = "pbool" -> [ok |-> v.v = p.v, env |-> env]
+    [] p.k = "pstr" -> [ok |-> v.v = p.v, env |-> env]
     [] p.k = "pctor" -> IF v.variant = p.variant THEN MatchAll(p.ps, v.as, env) ELSE [ok |-> FALSE, env |-> env]
     [] p.k = "ptuple" -> MatchAll(p.ps, v.es, env)
+    [] p.k = "pstruct" -> MatchAll([i \in DOMAIN p.fs |-> p.fs[i].p], [i \in DOMAIN p.fs |-> v.f[p.fs[i].f]], env)
+
+\* ---------------------------------------------------------------- machine states
+E(e, env, tenv) == [t |-> "e", e |-> e, env |-> env, tenv |-> tenv]
+V(v) == [t |-> "v", v |-> v]
+Push(f) == <<f>> \o kont
+Tick == steps' = steps + 1 /\ UNCHANGED pid
+Stop(v) == /\ status' = IF v.k = "fail" THEN [k |-> "failed", why |-> v.why] ELSE [k |-> "unsupported", why |-> v.why]
+           /\ UNCHANGED <<ctl, kont, heap, nxt, out>> /\ Tick
+Same == UNCHANGED <<heap, nxt, out, status>> /\ Tick
+Ret(v) == IF IsBad(v) THEN Stop(v) ELSE /\ ctl' = V(v) /\ UNCHANGED kont /\ Same
+RetPop(v, rest) == IF IsBad(v) THEN Stop(v) ELSE /\ ctl' = V(v) /\ kont' = rest /\ Same
+
+\* ---------------------------------------------------------------- operators
+BinOp(op, l, r) ==
+  IF l.k = "int" THEN
+       CASE op = "+" -> VInt(l.t, WrapT(l.t, NAdd(l.n, r.n)))
+         [] op = "-" -> VInt(l.t, WrapT(l.t, NSub(l.n, r.n)))
+         [] op = "*" -> VInt(l.t, WrapT(l.t, NMul(l.n, r.n)))
+         [] op = "/" -> IF IsZero(r.n) THEN VFail("division by zero") ELSE VInt(l.t, WrapT(l.t, NDiv(l.n, r.n)))
+         [] op = "<" -> VBool(NCmp(l.n, r.n) < 0)
+         [] op = ">" -> VBool(NCmp(l.n, r.n) > 0)
+         [] op = "<=" -> VBool(NCmp(l.n, r.n) <= 0)
+         [] op = ">=" -> VBool(NCmp(l.n, r.n) >= 0)
+         [] op = "==" -> VBool(l.n = r.n)
+         [] op = "!=" -> VBool(l.n # r.n)
+         [] OTHER -> VBad("integer operator " \o op)
+  ELSE IF l.k = "float" THEN
+       IF NAbs(l.num) >= 32768 \/ NAbs(r.num) >= 32768 \/ l.den >= 32768 \/ r.den >= 32768 THEN VBad("float operands outside the modelled range")
+       ELSE LET d == l.num * r.den - r.num * l.den IN
+       CASE op = "+" -> FNorm(l.t, l.num * r.den + r.num * l.den, l.den * r.den)
+         [] op = "-" -> FNorm(l.t, d, l.den * r.den)
+         [] op = "*" -> FNorm(l.t, l.num * r.num, l.den * r.den)
+         [] op = "/" -> IF r.num = 0 THEN VBad("float division by zero") ELSE FNorm(l.t, (IF r.num < 0 THEN -1 ELSE 1) * l.num * r.den, l.den * NAbs(r.num))
+         [] op = "<" -> VBool(d < 0) [] op = ">" -> VBool(d > 0) [] op = "<=" -> VBool(d <= 0) [] op = ">=" -> VBool(d >= 0)
+         [] op = "==" -> VBool(d = 0) [] op = "!=" -> VBool(d # 0)
+         [] OTHER -> VBad("float operator " \o op)
+  ELSE IF l.k = "str" THEN
+       CASE op = "+" -> VStr(l.v \o r.v)
+         [] op = "==" -> VBool(l.v = r.v)
+         [] op = "!=" -> VBool(l.v # r.v)
+         [] OTHER -> VBad("string operator " \o op)
+  ELSE IF l.k = "bool" THEN
+       CASE op = "==" -> VBool(l.v = r.v)
+         [] op = "!=" -> VBool(l.v # r.v)
+         [] OTHER -> VBad("bool operator " \o op)
+  ELSE IF l.k = "unit" /\ op \in {"==", "!="} THEN VBool(op = "==")
+  ELSE VBad("operator " \o op \o " on " \o l.k)
+
+UnOp(op, v) ==
+  IF op = "!" /\ v.k = "bool" THEN VBool(~v.v)
+  ELSE IF op = "-" /\ v.k = "int" THEN VInt(v.t, WrapT(v.t, NNeg(v.n)))
+  ELSE IF op = "-" /\ v.k = "float" THEN [v EXCEPT !.num = -v.num]
+  ELSE VBad("unary operator " \o op)
+
+\* ---------------------------------------------------------------- builtins (the meaning the language documents)
+IntToStringFns == {t \o "_to_string" : t \in IntTypes}
+IsBuiltin(n) == n \in IntToStringFns \cup {"bool_to_string", "unit_to_string", "float32_to_string", "float64_to_string",
+                   "string_print", "string_println", "string_len", "string_get",
+                   "ref", "ref_get", "ref_set", "vec_new", "vec_push", "vec_get", "vec_len", "array_get", "array_set",
+                   "bool_to_json", "json_escape_string"}
+
+\* JSON string escaping as RFC 8259 prescribes (C18): quotes, backslash, control characters; everything else verbatim
+JsonEscByte(b) ==
+  CASE b = 34 -> <<92, 34>> [] b = 92 -> <<92, 92>> [] b = 8 -> <<92, 98>> [] b = 12 -> <<92, 102>>
+    [] b = 10 -> <<92, 110>> [] b = 13 -> <<92, 114>> [] b = 9 -> <<92, 116>>
+    [] OTHER -> LET hex == <<48, 49, 50, 51, 52, 53, 54, 55, 56, 57, 97, 98, 99, 100, 101, 102>> IN
+                IF b < 32 THEN <<92, 117, 48, 48, hex[(b \div 16) + 1], hex[(b % 16) + 1]>> ELSE <<b>>
+RECURSIVE JsonEsc(_)
+JsonEsc(bs) == IF bs = <<>> THEN <<>> ELSE JsonEscByte(Head(bs)) \o JsonEsc(Tail(bs))
+
+\* effect-free builtins: result value
+PureBuiltin(name, vs, targs) ==
+  CASE name \in IntToStringFns -> VStr(NDec(vs[1].n))
+    [] name = "bool_to_string" -> VStr(BoolBytes(vs[1].v))
+    [] name = "bool_to_json" -> VStr(BoolBytes(vs[1].v))
+    [] name = "unit_to_string" -> VStr(<<40, 41>>)
+    [] name \in {"float32_to_string", "float64_to_string"} -> IF FloatOK(vs[1]) THEN VStr(FloatV(vs[1])) ELSE VBad("float formatting outside the modelled range")
+    [] name = "json_escape_string" -> VStr(<<34>> \o JsonEsc(vs[1].v) \o <<34>>)
+    [] name = "string_len" -> VInt("int32", NSmall(Len(vs[1].v)))
+    [] name = "string_get" ->
+         IF ~vs[2].n.s \/ vs[2].n.v < 0 \/ vs[2].n.v >= Len(vs[1].v) THEN VFail("string index out of range")
+         ELSE IF vs[1].v[vs[2].n.v + 1] >= 128 THEN VBad("string_get on a non-ASCII byte") ELSE VStr(<<vs[1].v[vs[2].n.v + 1]>>)
+    [] name = "vec_new" -> [k |-> "vec", ty |-> [t |-> "vec", e |-> IF targs = <<>> THEN [t |-> "?"] ELSE targs[1]], es |-> <<>>]
+    [] name = "vec_push" -> [vs[1] EXCEPT !.es = Append(@, vs[2])]
+    [] name = "vec_len" -> VInt("int32", NSmall(Len(vs[1].es)))
+    [] name = "vec_get" ->
+         IF ~vs[2].n.s \/ vs[2].n.v < 0 \/ vs[2].n.v >= Len(vs[1].es) THEN VFail("vec index out of range") ELSE vs[1].es[vs[2].n.v + 1]
+    [] name = "array_get" ->
+         IF ~vs[2].n.s \/ vs[2].n.v < 0 \/ vs[2].n.v >= Len(vs[1].es) THEN VFail("array index out of range") ELSE vs[1].es[vs[2].n.v + 1]
+    [] name = "array_set" ->
+         IF ~vs[2].n.s \/ vs[2].n.v < 0 \/ vs[2].n.v >= Len(vs[1].es) THEN VFail("array index out of range")
+         ELSE [vs[1] EXCEPT !.es = [@ EXCEPT ![vs[2].n.v + 1] = vs[3]]]
+    [] OTHER -> VBad("builtin " \o name)
+
+\* ---------------------------------------------------------------- function application
+FnDef(n) == P.fns[n]
+IsUserFn(n) == n \in DOMAIN P.fns
+
+\* enter a user function: parameters are patterns-free names
+EnterFn(name, targs, vs, rest) ==
+  LET f == FnDef(name)
+      env == [x \in {f.params[i] : i \in DOMAIN f.params} |-> vs[CHOOSE i \in DOMAIN f.params : f.params[i] = x]]
+      tenv == [g \in {f.gens[i] : i \in DOMAIN f.gens} |-> targs[CHOOSE i \in DOMAIN f.gens : f.gens[i] = g]] IN
+  IF Len(vs) # Len(f.params) \/ Len(targs) # Len(f.gens) THEN Stop(VBad("arity of " \o name))
+  ELSE IF Len(rest) >= 600 THEN /\ status' = [k |-> "inconclusive", why |-> "continuation depth"] /\ UNCHANGED <<ctl, kont, heap, nxt, out>> /\ Tick
+  ELSE /\ ctl' = E(f.body, env, tenv) /\ kont' = rest /\ Same
+
+ImplKey(trait, v) == trait \o "|" \o TyKey(TypeOfVal(v))
+
+\* apply a function value or a named function to evaluated arguments; `rest` is the continuation to return to
+ApplyNamed(name, targs, vs, rest) ==
+  IF IsUserFn(name) THEN EnterFn(name, targs, vs, rest)
+  ELSE IF name = "string_print" THEN /\ out' = out \o vs[1].v /\ ctl' = V(VUnit) /\ kont' = rest /\ UNCHANGED <<heap, nxt, status>> /\ Tick
+  ELSE IF name = "string_println" THEN /\ out' = out \o vs[1].v \o <<10>> /\ ctl' = V(VUnit) /\ kont' = rest /\ UNCHANGED <<heap, nxt, status>> /\ Tick
+  ELSE IF name = "ref" THEN
+       /\ heap' = (nxt :> vs[1]) @@ heap /\ nxt' = nxt + 1
+       /\ ctl' = V([k |-> "ref", a |-> nxt, ty |-> [t |-> "ref", e |-> TypeOfVal(vs[1])]]) /\ kont' = rest /\ UNCHANGED <<out, status>> /\ Tick
+  ELSE IF name = "ref_get" THEN RetPop(heap[vs[1].a], rest)
+  ELSE IF name = "ref_set" THEN /\ heap' = [heap EXCEPT ![vs[1].a] = vs[2]] /\ ctl' = V(VUnit) /\ kont' = rest /\ UNCHANGED <<nxt, out, status>> /\ Tick
+  ELSE IF IsBuiltin(name) THEN RetPop(PureBuiltin(name, vs, targs), rest)
+  ELSE Stop(VBad("unknown function " \o name))
+
+ApplyValue(c, vs, rest) ==
+  IF c.k = "fnref" THEN ApplyNamed(c.n, c.targs, vs, rest)
+  ELSE IF c.k = "clo" THEN
+       IF Len(vs) # Len(c.ps) THEN Stop(VBad("closure arity"))
+       ELSE /\ ctl' = E(c.b, [x \in {c.ps[i] : i \in DOMAIN c.ps} |-> vs[CHOOSE i \in DOMAIN c.ps : c.ps[i] = x]] @@ c.env, c.tenv)
+            /\ kont' = rest /\ Same
+  ELSE Stop(VBad("call of a non-function value"))
+
+TraitDispatch(trait, m, vs, rest) ==
+  LET recv == IF vs[1].k = "dyn" THEN vs[1].v ELSE vs[1]
+      key == ImplKey(trait, recv) IN
+  IF key \in DOMAIN P.impls /\ m \in DOMAIN P.impls[key] THEN
+       ApplyNamed(P.impls[key][m].fn, P.impls[key][m].targs, <<recv>> \o Tail(vs), rest)
+  ELSE Stop(VBad("no implementation " \o key \o "." \o m))
 
 \* ---------------------------------------------------------------- start evaluating an expression
+ArgsOf(e) == CASE e.k \in {"call", "ctor", "tcall", "dcall"} -> e.as
+               [] e.k \in {"tuple", "array"} -> e.es
+               [] e.k = "struct" -> [i \in DOMAIN e.fs |-> e.fs[i].e]
+               [] e.k = "callv" -> <<e.f>> \o e.as
+
 StepE ==
   /\ ctl.t = "e"
-  /\ LET e == ctl.e env == ctl.env IN
-     CASE e.k = "int" -> ctl' = V(VInt(e.v)) /\ UNCHANGED <<kont, heap, nxt, out, status>>
-       [] e.k = "bool" -> ctl' = V(VBool(e.v)) /\ UNCHANGED <<kont, heap, nxt, out, status>>
-       [] e.k = "str" -> ctl' = V(VStr(e.v)) /\ UNCHANGED <<kont, heap, nxt, out, status>>
-       [] e.k = "unit" -> ctl' = V(VUnit) /\ UNCHANGED <<kont, heap, nxt, out, status>>
-       [] e.k = "var" -> ctl' = V(env[e.x]) /\ UNCHANGED <<kont, heap, nxt, out, status>>
-       [] e.k = "fnref" -> ctl' = V([k |-> "fnref", n |-> e.n]) /\ UNCHANGED <<kont, heap, nxt, out, status>>
-       [] e.k = "lam" -> ctl' = V([k |-> "clo", ps |-> e.ps, b |-> e.b, env |-> env]) /\ UNCHANGED <<kont, heap, nxt, out, status>>
-       [] e.k = "bin" -> ctl' = E(e.l, env) /\ kont' = Push([f |-> "binL", op |-> e.op, r |-> e.r, env |-> env]) /\ UNCHANGED <<heap, nxt, out, status>>
-       [] e.k = "un" -> ctl' = E(e.e, env) /\ kont' = Push([f |-> "un", op |-> e.op]) /\ UNCHANGED <<heap, nxt, out, status>>
-       [] e.k = "if" -> ctl' = E(e.c, env) /\ kont' = Push([f |-> "if", th |-> e.t, el |-> e.e, env |-> env]) /\ UNCHANGED <<heap, nxt, out, status>>
-       [] e.k = "proj" -> ctl' = E(e.e, env) /\ kont' = Push([f |-> "proj", i |-> e.i]) /\ UNCHANGED <<heap, nxt, out, status>>
-       [] e.k = "field" -> ctl' = E(e.e, env) /\ kont' = Push([f |-> "field", fld |-> e.f]) /\ UNCHANGED <<heap, nxt, out, status>>
-       [] e.k = "match" -> ctl' = E(e.e, env) /\ kont' = Push([f |-> "match", arms |-> e.arms, env |-> env]) /\ UNCHANGED <<heap, nxt, out, status>>
-       [] e.k \in {"call", "tuple", "ctor", "struct"} ->
-            LET es == CASE e.k = "call" -> e.as [] e.k = "tuple" -> e.es [] e.k = "ctor" -> e.as
-                        [] OTHER -> [i \in DOMAIN e.fs |-> e.fs[i].e] IN
-            IF es = <<>> THEN /\ ctl' = [t |-> "apply", node |-> e, vs |-> <<>>] /\ UNCHANGED <<kont, heap, nxt, out, status>>
-            ELSE /\ ctl' = E(es[1], env) /\ kont' = Push([f |-> "args", node |-> e, es |-> es, done |-> <<>>, env |-> env])
-                 /\ UNCHANGED <<heap, nxt, out, status>>
-       [] e.k = "callv" -> ctl' = E(e.f, env) /\ kont' = Push([f |-> "callee", as |-> e.as, env |-> env]) /\ UNCHANGED <<heap, nxt, out, status>>
+  /\ LET e == ctl.e env == ctl.env tenv == ctl.tenv IN
+     CASE e.k = "int" -> Ret(VInt(e.ty, NFromDigits(e.neg, e.ds)))
+       [] e.k = "float" -> Ret(FNorm(e.ty, e.num, e.den))
+       [] e.k = "bool" -> Ret(VBool(e.v))
+       [] e.k = "str" -> Ret(VStr(e.v))
+       [] e.k = "unit" -> Ret(VUnit)
+       [] e.k = "var" -> IF e.x \in DOMAIN env THEN Ret(env[e.x]) ELSE Stop(VBad("unbound variable " \o e.x))
+       [] e.k = "fnref" -> Ret([k |-> "fnref", n |-> e.n, targs |-> [i \in DOMAIN e.targs |-> Subst(e.targs[i], tenv)]])
+       [] e.k = "lam" -> Ret([k |-> "clo", ps |-> e.ps, b |-> e.b, env |-> env, tenv |-> tenv])
+       [] e.k = "bin" -> /\ ctl' = E(e.l, env, tenv) /\ kont' = Push([f |-> "binL", op |-> e.op, r |-> e.r, env |-> env, tenv |-> tenv]) /\ Same
+       [] e.k = "un" -> /\ ctl' = E(e.e, env, tenv) /\ kont' = Push([f |-> "un", op |-> e.op]) /\ Same
+       [] e.k = "if" -> /\ ctl' = E(e.c, env, tenv) /\ kont' = Push([f |-> "if", th |-> e.t, el |-> e.e, env |-> env, tenv |-> tenv]) /\ Same
+       [] e.k = "while" -> /\ ctl' = E(e.c, env, tenv) /\ kont' = Push([f |-> "whileC", c |-> e.c, b |-> e.b, env |-> env, tenv |-> tenv]) /\ Same
+       [] e.k = "proj" -> /\ ctl' = E(e.e, env, tenv) /\ kont' = Push([f |-> "proj", i |-> e.i]) /\ Same
+       [] e.k = "field" -> /\ ctl' = E(e.e, env, tenv) /\ kont' = Push([f |-> "field", fld |-> e.f]) /\ Same
+       [] e.k = "todyn" -> /\ ctl' = E(e.e, env, tenv) /\ kont' = Push([f |-> "todyn", trait |-> e.trait]) /\ Same
+       [] e.k = "match" -> /\ ctl' = E(e.e, env, tenv) /\ kont' = Push([f |-> "match", arms |-> e.arms, env |-> env, tenv |-> tenv]) /\ Same
+       [] e.k \in {"call", "tuple", "array", "ctor", "struct", "tcall", "dcall", "callv"} ->
+            LET es == ArgsOf(e) IN
+            IF es = <<>> THEN /\ ctl' = [t |-> "apply", node |-> e, vs |-> <<>>, tenv |-> tenv] /\ UNCHANGED kont /\ Same
+            ELSE /\ ctl' = E(es[1], env, tenv) /\ kont' = Push([f |-> "args", node |-> e, es |-> es, done |-> <<>>, env |-> env, tenv |-> tenv]) /\ Same
        [] e.k = "block" ->
-            IF e.stmts = <<>> THEN ctl' = E(e.tail, env) /\ UNCHANGED <<kont, heap, nxt, out, status>>
-            ELSE /\ ctl' = E(e.stmts[1].e, env) /\ kont' = Push([f |-> "blk", stmts |-> e.stmts, i |-> 1, tail |-> e.tail, env |-> env])
-                 /\ UNCHANGED <<heap, nxt, out, status>>
-  /\ UNCHANGED pid
+            IF e.stmts = <<>> THEN
+                 (IF e.tail = <<>> THEN Ret(VUnit) ELSE /\ ctl' = E(e.tail[1], env, tenv) /\ UNCHANGED kont /\ Same)
+            ELSE /\ ctl' = E(e.stmts[1].e, env, tenv)
+                 /\ kont' = Push([f |-> "blk", stmts |-> e.stmts, i |-> 1, tail |-> e.tail, env |-> env, tenv |-> tenv]) /\ Same
+       [] e.k = "go" -> Stop(VBad("go expression (handled by the threaded machine)"))
+       [] OTHER -> Stop(VBad("expression kind " \o e.k))
 
-\* ---------------------------------------------------------------- apply a saturated node
-ApplyFn(name, vs) ==   \* prelude functions given by their meaning; printing is visible in out
-  CASE name = "tick" \/ name = "tickb" ->
-         /\ out' = out \o <<116>> \o Dec(vs[1].v) \o <<10>> /\ ctl' = V(vs[2]) /\ UNCHANGED <<kont, heap, nxt, status>>
-    [] name = "inc" -> ctl' = V(VInt(vs[1].v + 1)) /\ UNCHANGED <<kont, heap, nxt, out, status>>
-    [] name = "dbl" -> ctl' = V(VInt(vs[1].v * 2)) /\ UNCHANGED <<kont, heap, nxt, out, status>>
-    [] name = "apply1" -> ctl' = [t |-> "apply", node |-> [k |-> "callv"], vs |-> <<vs[2]>>, callee |-> vs[1]] /\ UNCHANGED <<kont, heap, nxt, out, status>>
-    [] name = "add3" -> ctl' = V(VInt(IF vs[3].v THEN vs[1].v + vs[2].v ELSE vs[1].v - vs[2].v)) /\ UNCHANGED <<kont, heap, nxt, out, status>>
-    [] name = "string_println" -> out' = out \o vs[1].v \o <<10>> /\ ctl' = V(VUnit) /\ UNCHANGED <<kont, heap, nxt, status>>
-    [] name = "string_print" -> out' = out \o vs[1].v /\ ctl' = V(VUnit) /\ UNCHANGED <<kont, heap, nxt, status>>
-    [] name = "int32_to_string" -> ctl' = V(VStr(Dec(vs[1].v))) /\ UNCHANGED <<kont, heap, nxt, out, status>>
-    [] name = "bool_to_string" -> ctl' = V(VStr(IF vs[1].v THEN <<116, 114, 117, 101>> ELSE <<102, 97, 108, 115, 101>>)) /\ UNCHANGED <<kont, heap, nxt, out, status>>
-    [] name = "ref" -> heap' = (nxt :> vs[1]) @@ heap /\ nxt' = nxt + 1 /\ ctl' = V([k |-> "ref", a |-> nxt]) /\ UNCHANGED <<kont, out, status>>
-    [] name = "ref_get" -> ctl' = V(heap[vs[1].a]) /\ UNCHANGED <<kont, heap, nxt, out, status>>
-    [] name = "ref_set" -> heap' = [heap EXCEPT ![vs[1].a] = vs[2]] /\ ctl' = V(VUnit) /\ UNCHANGED <<kont, nxt, out, status>>
-
+\* ---------------------------------------------------------------- all operands evaluated: build the value / make the call
 StepApply ==
   /\ ctl.t = "apply"
-  /\ LET e == ctl.node vs == ctl.vs IN
-     CASE e.k = "call" -> ApplyFn(e.f, vs)
-       [] e.k = "tuple" -> ctl' = V([k |-> "tuple", es |-> vs]) /\ UNCHANGED <<kont, heap, nxt, out, status>>
-       [] e.k = "ctor" -> ctl' = V([k |-> "variant", enum |-> e.enum, variant |-> e.variant, as |-> vs]) /\ UNCHANGED <<kont, heap, nxt, out, status>>
-       [] e.k = "struct" -> ctl' = V([k |-> "struct", n |-> e.n, f |-> [n \in {e.fs[i].f : i \in DOMAIN e.fs} |-> vs[CHOOSE i \in DOMAIN e.fs : e.fs[i].f = n]]])
-                            /\ UNCHANGED <<kont, heap, nxt, out, status>>
-       [] e.k = "callv" ->
-            LET c == ctl.callee IN
-            IF c.k = "fnref" THEN ApplyFn(c.n, vs)
-            ELSE /\ ctl' = E(c.b, [i \in {} |-> 0] @@ (c.ps[1].x :> vs[1]) @@ c.env)   \* one-parameter closures in this slice
-                 /\ UNCHANGED <<kont, heap, nxt, out, status>>
-  /\ UNCHANGED pid
+  /\ LET e == ctl.node vs == ctl.vs tenv == ctl.tenv IN
+     CASE e.k = "call" -> ApplyNamed(e.f, [i \in DOMAIN e.targs |-> Subst(e.targs[i], tenv)], vs, kont)
+       [] e.k = "callv" -> ApplyValue(vs[1], Tail(vs), kont)
+       [] e.k \in {"tcall", "dcall"} -> TraitDispatch(e.trait, e.m, vs, kont)
+       [] e.k = "tuple" -> Ret([k |-> "tuple", es |-> vs])
+       [] e.k = "array" -> Ret([k |-> "array", es |-> vs])
+       [] e.k = "ctor" -> Ret([k |-> "variant", ty |-> Subst(e.ty, tenv), variant |-> e.variant, as |-> vs])
+       [] e.k = "struct" ->
+            Ret([k |-> "struct", ty |-> Subst(e.ty, tenv),
+                 f |-> [n \in {e.fs[i].f : i \in DOMAIN e.fs} |-> vs[CHOOSE i \in DOMAIN e.fs : e.fs[i].f = n]]])
 
-\* ---------------------------------------------------------------- return a value to the continuation
+\* ---------------------------------------------------------------- return a value to the innermost continuation frame
 StepV ==
   /\ ctl.t = "v" /\ kont # <<>>
   /\ LET v == ctl.v f == Head(kont) rest == Tail(kont) IN
      CASE f.f = "binL" ->
-            IF f.op = "&&" /\ ~v.v THEN ctl' = V(VBool(FALSE)) /\ kont' = rest /\ UNCHANGED <<heap, nxt, out, status>>
-            ELSE IF f.op = "||" /\ v.v THEN ctl' = V(VBool(TRUE)) /\ kont' = rest /\ UNCHANGED <<heap, nxt, out, status>>
-            ELSE IF f.op \in {"&&", "||"} THEN ctl' = E(f.r, f.env) /\ kont' = rest /\ UNCHANGED <<heap, nxt, out, status>>
-            ELSE ctl' = E(f.r, f.env) /\ kont' = <<[f |-> "binR", op |-> f.op, l |-> v]>> \o rest /\ UNCHANGED <<heap, nxt, out, status>>
-       [] f.f = "binR" -> ctl' = V(BinOp(f.op, f.l, v)) /\ kont' = rest /\ UNCHANGED <<heap, nxt, out, status>>
-       [] f.f = "un" -> ctl' = V(IF f.op = "!" THEN VBool(~v.v) ELSE VInt(-v.v)) /\ kont' = rest /\ UNCHANGED <<heap, nxt, out, status>>
-       [] f.f = "if" -> ctl' = E(IF v.v THEN f.th ELSE f.el, f.env) /\ kont' = rest /\ UNCHANGED <<heap, nxt, out, status>>
-       [] f.f = "proj" -> ctl' = V(v.es[f.i + 1]) /\ kont' = rest /\ UNCHANGED <<heap, nxt, out, status>>
-       [] f.f = "field" -> ctl' = V(v.f[f.fld]) /\ kont' = rest /\ UNCHANGED <<heap, nxt, out, status>>
+            IF f.op = "&&" /\ ~v.v THEN RetPop(VBool(FALSE), rest)
+            ELSE IF f.op = "||" /\ v.v THEN RetPop(VBool(TRUE), rest)
+            ELSE IF f.op \in {"&&", "||"} THEN /\ ctl' = E(f.r, f.env, f.tenv) /\ kont' = rest /\ Same
+            ELSE /\ ctl' = E(f.r, f.env, f.tenv) /\ kont' = <<[f |-> "binR", op |-> f.op, l |-> v]>> \o rest /\ Same
+       [] f.f = "binR" -> RetPop(BinOp(f.op, f.l, v), rest)
+       [] f.f = "un" -> RetPop(UnOp(f.op, v), rest)
+       [] f.f = "if" -> /\ ctl' = E(IF v.v THEN f.th ELSE f.el, f.env, f.tenv) /\ kont' = rest /\ Same
+       [] f.f = "whileC" ->
+            IF v.v THEN /\ ctl' = E(f.b, f.env, f.tenv) /\ kont' = <<[f EXCEPT !.f = "whileB"]>> \o rest /\ Same
+            ELSE RetPop(VUnit, rest)
+       [] f.f = "whileB" -> /\ ctl' = E(f.c, f.env, f.tenv) /\ kont' = <<[f EXCEPT !.f = "whileC"]>> \o rest /\ Same
+       [] f.f = "proj" -> RetPop(v.es[f.i + 1], rest)
+       [] f.f = "field" -> RetPop(v.f[f.fld], rest)
+       [] f.f = "todyn" -> RetPop([k |-> "dyn", trait |-> f.trait, v |-> v], rest)
        [] f.f = "match" ->
             LET hits == {i \in DOMAIN f.arms : Match(f.arms[i].p, v, f.env).ok} IN
-            IF hits = {} THEN status' = "failed" /\ UNCHANGED <<ctl, kont, heap, nxt, out>>
-            ELSE LET i == CHOOSE j \in hits : \A h \in hits : j <= h IN
-                 ctl' = E(f.arms[i].b, Match(f.arms[i].p, v, f.env).env) /\ kont' = rest /\ UNCHANGED <<heap, nxt, out, status>>
+            IF hits = {} THEN Stop(VFail("no arm matches"))
+            ELSE LET i == Min(hits) IN
+                 /\ ctl' = E(f.arms[i].b, Match(f.arms[i].p, v, f.env).env, f.tenv) /\ kont' = rest /\ Same
        [] f.f = "args" ->
             LET done == Append(f.done, v) IN
-            IF Len(done) = Len(f.es) THEN ctl' = [t |-> "apply", node |-> f.node, vs |-> done] /\ kont' = rest /\ UNCHANGED <<heap, nxt, out, status>>
-            ELSE ctl' = E(f.es[Len(done) + 1], f.env) /\ kont' = <<[f EXCEPT !.done = done]>> \o rest /\ UNCHANGED <<heap, nxt, out, status>>
-       [] f.f = "callee" ->
-            ctl' = E(f.as[1], f.env) /\ kont' = <<[f |-> "cargs", callee |-> v]>> \o rest /\ UNCHANGED <<heap, nxt, out, status>>
-       [] f.f = "cargs" ->
-            ctl' = [t |-> "apply", node |-> [k |-> "callv"], vs |-> <<v>>, callee |-> f.callee] /\ kont' = rest /\ UNCHANGED <<heap, nxt, out, status>>
+            IF Len(done) = Len(f.es) THEN /\ ctl' = [t |-> "apply", node |-> f.node, vs |-> done, tenv |-> f.tenv] /\ kont' = rest /\ Same
+            ELSE /\ ctl' = E(f.es[Len(done) + 1], f.env, f.tenv) /\ kont' = <<[f EXCEPT !.done = done]>> \o rest /\ Same
        [] f.f = "blk" ->
             LET s == f.stmts[f.i]
-                env1 == CASE s.k = "let" -> Ext(f.env, s.x, v)
-                          [] s.k = "lettup" -> Ext(Ext(f.env, s.xs[1], v.es[1]), s.xs[2], v.es[2])
-                          [] OTHER -> f.env IN
-            IF f.i = Len(f.stmts) THEN ctl' = E(f.tail, env1) /\ kont' = rest /\ UNCHANGED <<heap, nxt, out, status>>
-            ELSE ctl' = E(f.stmts[f.i + 1].e, env1) /\ kont' = <<[f EXCEPT !.i = f.i + 1, !.env = env1]>> \o rest /\ UNCHANGED <<heap, nxt, out, status>>
-  /\ UNCHANGED pid
+                m == IF s.k = "let" THEN Match(s.p, v, f.env) ELSE [ok |-> TRUE, env |-> f.env] IN
+            IF ~m.ok THEN Stop(VFail("let pattern does not match"))
+            ELSE IF f.i = Len(f.stmts) THEN
+                 (IF f.tail = <<>> THEN RetPop(VUnit, rest) ELSE /\ ctl' = E(f.tail[1], m.env, f.tenv) /\ kont' = rest /\ Same)
+            ELSE /\ ctl' = E(f.stmts[f.i + 1].e, m.env, f.tenv) /\ kont' = <<[f EXCEPT !.i = f.i + 1, !.env = m.env]>> \o rest /\ Same
 
-Finish == /\ ctl.t = "v" /\ kont = <<>> /\ status = "running" /\ status' = "ok" /\ UNCHANGED <<pid, ctl, kont, heap, nxt, out>>
+Finish == /\ ctl.t = "v" /\ kont = <<>> /\ status' = [k |-> "ok", why |-> ""] /\ UNCHANGED <<ctl, kont, heap, nxt, out>> /\ Tick
+OutOfSteps == /\ steps >= MaxSteps /\ status' = [k |-> "inconclusive", why |-> "step bound"] /\ UNCHANGED <<pid, ctl, kont, heap, nxt, out, steps>>
 
-Init == /\ pid \in 1..Len(Progs) /\ ctl = E(Progs[pid].main, EmptyEnv) /\ kont = <<>>
-        /\ heap = (0 :> 0) /\ nxt = 1 /\ out = <<>> /\ status = "running"
-Next == status = "running" /\ (StepE \/ StepApply \/ StepV \/ Finish)
+Init == /\ pid \in 1..Len(Progs)
+        /\ ctl = E(P.fns["main"].body, EmptyEnv, EmptyEnv) /\ kont = <<>>
+        /\ heap = (0 :> 0) /\ nxt = 1 /\ out = <<>> /\ status = [k |-> "running", why |-> ""] /\ steps = 0
+Next == /\ status.k = "running"
+        /\ IF steps >= MaxSteps THEN OutOfSteps ELSE (StepE \/ StepApply \/ StepV \/ Finish)
 Spec == Init /\ [][Next]_vars
-Report == status # "running" => PrintT(ToJson([id |-> Progs[pid].id, status |-> status, out |-> out]))
+Report == status.k # "running" =>
+            PrintT(<<"REPORT", ToJson([name |-> P.name, status |-> status.k, why |-> status.why, out |-> out, steps |-> steps])>>)
 =============================================================================
